@@ -70,8 +70,10 @@ def _term(node, neg, active, names):
     from psyclone.psyir.symbols import INTEGER_TYPE
     copy = node.copy()
     refs = [r for r in copy.walk(N.Reference) if r.symbol.name.lower() in active]
-    if len(refs) != 1:
-        raise NotLinear(f"{len(refs)} active references in a term")
+    if not refs:
+        raise NotLinear("no active reference in a term")
+    # several active references: the first one is "the" reference as in AssignmentTrans.apply, the others stay in the
+    # coefficient, which C19.Accepted refuses (non-linear term)
     ref = refs[0]
     # the path from the reference to the term root: products and signs only
     cur = ref
@@ -98,51 +100,97 @@ def _term(node, neg, active, names):
 
 
 def lin_routine(children, active, names, locals_=()):
-    """Top level of a routine: returns (prelude, form).  Passive statements are only allowed as
-    one contiguous block at the top (after the zeroing of local active variables in an adjoint
-    routine); they are exported to MiniF as the `prelude`, the rest is the linear form."""
+    """Top level of a routine: returns (prelude, form, interleaved).  `prelude` = the leading passive scalar
+    assignments (MiniF), whose values are needed to evaluate the model's read-only-passive-store operations;
+    `interleaved` = there are passive statements elsewhere (then those operations are not meaningful)."""
     children = list(children)
-    passive = [i for i, c in enumerate(children) if _is_passive_stmt(c, active)]
-    prelude = []
-    if passive:
-        if passive != list(range(passive[0], passive[-1] + 1)):
-            raise OutsideModel("passive statements interleaved with active ones")
-        for c in children[:passive[0]]:
-            f = lin_stmt(c, active, names)
-            if not (f[0] == "asg" and f[2] == [] and names.id(c.lhs.name) in [names.id(x) for x in locals_]):
-                raise OutsideModel("passive statement after an active one")
-        prelude = [minif.export_stmt(children[i], names) for i in passive]
-        children = children[:passive[0]] + children[passive[-1] + 1:]
-    return prelude, lin_stmt(children, active, names)
+    k = 0
+    while k < len(children) and _is_passive_stmt(children[k], active) and _is_scalar_passign(children[k]):
+        k += 1
+    prelude = [minif.export_stmt(c, names) for c in children[:k]]
+    interleaved = any(_is_passive_stmt(d, active) and d.walk(_assignment_cls())
+                      for c in children[k:] for d in c.walk(_stmt_classes()))
+    return prelude, lin_stmt(children, active, names), interleaved
+
+
+def _assignment_cls():
+    from psyclone.psyir import nodes as N
+    return N.Assignment
+
+
+def _stmt_classes():
+    from psyclone.psyir import nodes as N
+    return (N.Assignment, N.IfBlock, N.Loop)
+
+
+def _is_scalar_passign(node):
+    from psyclone.psyir import nodes as N
+    return isinstance(node, N.Assignment) and type(node.lhs) is N.Reference
+
+
+SEC_EV = "sec__ev"
+
+
+def _section_element_statement(node):
+    """array-section assignment -> (element count n, element statement): every section subscript
+    `lo:hi:st` becomes `lo + E*st` where E is the element counter `sec__ev` (one section dimension) or
+    MOD(sec__ev, n1) / sec__ev / n1 (two section dimensions, first one fastest)"""
+    from psyclone.psyir import nodes as N
+    from psyclone.psyir.symbols import DataSymbol, INTEGER_TYPE
+    lsec = _sections(node.lhs)
+    counts = [c for _, _, _, c in lsec]
+    if not 1 <= len(counts) <= 2:
+        raise OutsideModel("array assignment with %d section dimensions" % len(counts))
+    ev = DataSymbol(SEC_EV, INTEGER_TYPE)
+
+    def counter(k):
+        if len(counts) == 1:
+            return N.Reference(ev)
+        n1 = N.Literal(str(counts[0]), INTEGER_TYPE)
+        if k == 0:
+            return N.IntrinsicCall.create(N.IntrinsicCall.Intrinsic.MOD, [N.Reference(ev), n1])
+        return N.BinaryOperation.create(N.BinaryOperation.Operator.DIV, N.Reference(ev), n1)
+    copy = node.copy()
+    for ref in [r for r in copy.walk(N.ArrayReference) if any(isinstance(i, N.Range) for i in r.indices)]:
+        sec = _sections(ref)
+        if [c for _, _, _, c in sec] != counts:
+            raise OutsideModel("non-conformable sections")
+        for k, (pos, lo, st, _) in enumerate(sec):
+            ref.children[pos].replace_with(N.BinaryOperation.create(
+                N.BinaryOperation.Operator.ADD, N.Literal(str(lo), INTEGER_TYPE),
+                N.BinaryOperation.create(N.BinaryOperation.Operator.MUL, counter(k), N.Literal(str(st), INTEGER_TYPE))))
+    n = 1
+    for c in counts:
+        n *= c
+    return n, copy
 
 
 def lin_stmt(node, active, names):
     """PSyIR -> linear form (nested lists) of Model/AD.lean; blocks are ["seqs", ...]."""
     from psyclone.psyir import nodes as N
     if isinstance(node, (list, N.Schedule)):
-        out = ["seqs"]
-        for c in (node.children if isinstance(node, N.Schedule) else node):
-            if _is_passive_stmt(c, active):
-                raise OutsideModel("passive statement in a schedule")
-            out.append(lin_stmt(c, active, names))
-        return out
+        return ["seqs"] + [lin_stmt(c, active, names) for c in (node.children if isinstance(node, N.Schedule) else node)]
     if isinstance(node, N.Assignment):
         if node.lhs.symbol.name.lower() not in active:
-            raise NotLinear("passive LHS with active RHS")
+            if type(node.lhs) is not N.Reference:
+                raise OutsideModel("assignment to a passive array element")
+            return ["pas", names.id(node.lhs.name), minif.export_expr(node.rhs, names)]
+        if node.walk(N.Range):
+            try:
+                n, elem = _section_element_statement(node)
+            except Unsupported as e:
+                raise OutsideModel(str(e))
+            f = lin_stmt(elem, active, names)
+            return ["sec", names.id(SEC_EV), ["lit", n], f[1], f[2]]
         lhs = _aref(node.lhs, names)
         parts = _split(node.rhs, False)
         if len(parts) == 1 and isinstance(parts[0][0], N.Literal) and float(parts[0][0].value.replace("d", "e").split("_")[0]) == 0.0:
             return ["asg", lhs, []]
         return ["asg", lhs, [_term(t, neg, active, names) for t, neg in parts]]
     if isinstance(node, N.IfBlock):
-        if _is_active(node.condition, active):
-            raise NotLinear("IF on an active variable")
         els = lin_stmt(node.else_body, active, names) if node.else_body is not None else ["seqs"]
         return ["ite", minif.export_expr(node.condition, names), lin_stmt(node.if_body, active, names), els]
     if isinstance(node, N.Loop):
-        for e in (node.start_expr, node.stop_expr, node.step_expr):
-            if _is_active(e, active):
-                raise NotLinear("active loop bound")
         return ["loop", names.id(node.variable.name), minif.export_expr(node.start_expr, names),
                 minif.export_expr(node.stop_expr, names), minif.export_expr(node.step_expr, names),
                 lin_stmt(node.loop_body, active, names)]
@@ -213,9 +261,10 @@ def _expand_section_assignment(node, names):
     return ["seqs"] + first + second
 
 
-def export_routine(routine, names):
-    """MiniF export of a routine body; LBOUND/UBOUND of declared constant bounds are folded first
-    (array notation lowered by preprocess_trans produces `do idx = LBOUND(a,1), UBOUND(a,1)`)"""
+def folded(routine):
+    """copy of a routine with LBOUND/UBOUND of declared constant bounds replaced by literals (array
+    notation lowered by preprocess_trans produces `do idx = LBOUND(a,1), UBOUND(a,1)`; PSyAD itself
+    ignores active arrays inside LBOUND/UBOUND)"""
     from psyclone.psyir import nodes as N
     from psyclone.psyir.symbols import INTEGER_TYPE
     work = routine.copy()
@@ -225,7 +274,12 @@ def export_routine(routine, names):
                 call.replace_with(N.Literal(str(_const(call)), INTEGER_TYPE))
             except (Unsupported, ValueError, AttributeError, IndexError, TypeError):
                 pass
-    return export_x(list(work.children), names)
+    return work
+
+
+def export_routine(routine, names):
+    """MiniF export of a routine body (bounds folded, array sections expanded)"""
+    return export_x(list(folded(routine).children), names)
 
 
 def export_x(node, names):
@@ -269,6 +323,7 @@ def pipeline(src, active, want_test=False, use_api=True, extra_refusals=()):
     res.exc = res.tl_form = res.ad_form = res.form_why = res.ad_str = res.test_str = None
     res.tl_minif = res.tlpp_minif = res.ad_minif = None
     res.prelude = []
+    res.interleaved = False
     res.api_matches = True
     res.status = "ok"
     use_api = use_api or want_test
@@ -292,7 +347,7 @@ def pipeline(src, active, want_test=False, use_api=True, extra_refusals=()):
         tl_routine = tl.walk(Routine)[0]
         try:
             res.tlpp_minif = export_routine(tl_routine, res.names)
-            res.prelude, res.tl_form = lin_routine(tl_routine.children, active, res.names)
+            res.prelude, res.tl_form, res.interleaved = lin_routine(folded(tl_routine).children, active, res.names)
         except (NotLinear, OutsideModel, Unsupported) as e:
             res.form_why = type(e).__name__ + ": " + str(e)
         if res.status != "ok":
@@ -330,10 +385,7 @@ def pipeline(src, active, want_test=False, use_api=True, extra_refusals=()):
         return res
     if res.tl_form is not None:
         try:
-            locals_ = [a for a in active if tl_routine.symbol_table.lookup(a).is_automatic]
-            ad_prelude, res.ad_form = lin_routine(ad_routine.children, active, res.names, locals_)
-            if ad_prelude != res.prelude:
-                res.ad_form, res.form_why = None, "adjoint: passive prelude differs from the TL routine's"
+            _, res.ad_form, _ = lin_routine(folded(ad_routine).children, active, res.names)
         except (NotLinear, OutsideModel, Unsupported) as e:
             res.ad_form, res.form_why = None, "adjoint: " + type(e).__name__ + ": " + str(e)
     return res
